@@ -545,7 +545,19 @@ func (t *tapSerializer) Marshal(m pilosa.Message) ([]byte, error) {
 		return b, err
 	}
 	t.check(m, b, "marshal")
+	c27Keep(m, b)
 	return b, err
+}
+
+// encodings of real messages seen in this run, per type (mutated by the "garbage" op)
+var c27Samples = map[reflect.Type][][]byte{}
+
+func c27Keep(m pilosa.Message, b []byte) {
+	rt := reflect.TypeOf(m)
+	if rt == nil || len(b) == 0 || len(b) > 400 || len(c27Samples[rt]) >= 12 {
+		return
+	}
+	c27Samples[rt] = append(c27Samples[rt], append([]byte(nil), b...))
 }
 
 func (t *tapSerializer) Unmarshal(b []byte, m pilosa.Message) error {
@@ -589,6 +601,7 @@ func clip(s string) string {
 }
 
 func c27Prepare(d *db) {
+	c27Samples = map[reflect.Type][][]byte{} // per run
 	d.cl.serWrap = func(n *simNode, s pilosa.Serializer) pilosa.Serializer {
 		return &tapSerializer{real: s, d: d, node: n.id}
 	}
@@ -617,7 +630,7 @@ func c27Extra(d *db, op simrt.Op) bool {
 		r := simrt.NewRand(uint64(op.I[0]))
 		ser := proto.Serializer{}
 		for ti, mk := range c27Types {
-			for k := 0; k < 6; k++ {
+			for k := 0; k < 46; k++ {
 				n := r.Intn(40)
 				if k == 0 {
 					n = 0 // the empty payload is a valid encoding of every protobuf message
@@ -625,6 +638,28 @@ func c27Extra(d *db, op simrt.Op) bool {
 				buf := make([]byte, n)
 				for i := range buf {
 					buf[i] = byte(r.Uint64())
+				}
+				if k >= 6 {
+					// well-formed protobuf with arbitrary field numbers, small values and nested
+					// messages: fields and sub-messages are present or absent at random
+					buf = c27ProtoFuzz(r, 3)
+				}
+				if samples := c27Samples[reflect.TypeOf(mk())]; k >= 16 && len(samples) > 0 {
+					// the encoding of a real message of this run with one or two bytes replaced
+					// by small numbers (type tags, counts, lengths) or a piece cut out
+					buf = append([]byte(nil), samples[r.Intn(len(samples))]...)
+					for j := 1 + r.Intn(2); j > 0; j-- {
+						i := r.Intn(len(buf))
+						if r.Bool(0.25) && len(buf) > 2 {
+							e := i + 1 + r.Intn(len(buf)-i)
+							buf = append(buf[:i:i], buf[e:]...)
+							if len(buf) == 0 {
+								break
+							}
+						} else {
+							buf[i] = byte(simrt.Pick(r, 0, 1, 2, 3, 4, 5, 6, 7, 8, 9, 10, 11, 99, 255))
+						}
+					}
 				}
 				if k%2 == 1 {
 					// damage a valid encoding of a zero value instead
@@ -656,6 +691,33 @@ func c27Extra(d *db, op simrt.Op) bool {
 		return true
 	}
 	return c26Extra(d, op)
+}
+
+// c27ProtoFuzz returns a syntactically valid protobuf message: up to five fields numbered
+// 1-8 that are varints (small, or a type-like constant) or length-delimited (a nested message
+// of the same kind, a short string, or nothing).
+func c27ProtoFuzz(r *simrt.Rand, depth int) []byte {
+	var out []byte
+	for n := r.Intn(6); n > 0; n-- {
+		field := byte(1 + r.Intn(8))
+		if depth > 0 && r.Bool(0.5) {
+			var inner []byte
+			switch r.Intn(3) {
+			case 0:
+				inner = c27ProtoFuzz(r, depth-1)
+			case 1:
+				inner = []byte("ab")
+			}
+			if len(inner) > 120 {
+				inner = inner[:0]
+			}
+			out = append(out, field<<3|2, byte(len(inner)))
+			out = append(out, inner...)
+		} else {
+			out = append(out, field<<3|0, byte(simrt.Pick(r, 0, 1, 2, 3, 4, 5, 6, 7, 8, 9, 10, 99)))
+		}
+	}
+	return out
 }
 
 func genC27(r *simrt.Rand, tier string) *simrt.Plan {
